@@ -182,4 +182,12 @@ def vseExpected (any notPMD many offered more : Bool) (k : RK) : Res :=
       | .smwb => nextRes pre
       | .other => errRes pre
 
+/-! ### headerTokens (C11, C13, C14): every line of a header, every comma-separated element of a line -/
+
+def envTokens (moreLines moreElems : Bool) : Env :=
+  mkEnv [("more(h[key])", moreLines), ("more(strings.Split(elem(h[key]),\",\"))", moreElems), ("tokens!=nil", false)]
+
+def tokensExpected (moreLines moreElems : Bool) : Res :=
+  if !moreLines then okRes [] else if moreElems then nextRes ["append(_,_)"] else nextRes []
+
 end WS.Props.G2
